@@ -508,7 +508,7 @@ func runAll(cases []*Case) {
 			for i := s; i < len(cases); i += nShards {
 				c := cases[i]
 				fields := c.Fields
-				if c.Kind == "hist" || c.Kind == "conc" {
+				if c.Kind == "hist" || c.Kind == "conc" || c.Kind == "loadconc" {
 					fields = append([]string{hx(cwd)}, c.Fields...)
 				}
 				if c.Kind == "conc" {
